@@ -984,7 +984,8 @@ class Terminal:
                 coecmd, sdocmd, idx, subidx = unpack("<HBHB", resp[:6])
                 if coecmd >> 12 != CoECmd.SDORES.value:
                     raise EtherCatError(f"expected CoE SDORES, got {coecmd>>12:x}")
-                if idx != index or subindex != subidx:
+                if idx != index or \
+                        (1 if subindex is None else subindex) != subidx:
                     raise EtherCatError(f"requested index {index}, got {idx}")
                 toggle = 0
                 while stop < len(data):
